@@ -93,7 +93,7 @@ def seq(rng, depth, lib, in_body, cfg, tags):
 def gen_body(rng, depth, lib, cfg, tags):
     """Template body: a sequence, optionally wrapped in / interleaved with include tags."""
     parts = [seq(rng, depth, lib, True, cfg, tags)]
-    if cfg.markers and rng.random() < 0.05:
+    if cfg.markers and getattr(cfg, "table_marker", True) and rng.random() < 0.05:
         parts.insert(0, ("T", "{|"))
         tags.add("table-marker-start")
     if cfg.include_tags and rng.random() < 0.35:
